@@ -132,6 +132,9 @@ def run_one(tape, cfg):
         klass = tape.weighted([(4, "threads"), (3, "two_clients"), (2, "pickle"), (2, "io_error")], "klass")
         nworkers = 2 + tape.draw(3, "nw")
         policy = tape.choice(SimThreads.POLICIES, "policy")
+        prior_not_zero = blocksize is not None and tape.chance(1, 4, "prior_not_zero")
+    if prior_not_zero:
+        out.probe("prior_read_with_not_zero")
     if delim in ("aa", "aba"):
         out.probe("self_overlapping_delim")
     paths = [f"simfs://d/f{i}.txt" for i in range(nfiles)]
@@ -170,6 +173,10 @@ def run_one(tape, cfg):
         return db.read_text(paths, **kw)
 
     def build():
+        if prior_not_zero:
+            # call history: the same files were read before with not_zero=True (what read_csv does to
+            # skip a header byte) -- that call must not change what later reads return
+            read_bytes(paths, delimiter=delim.encode(), blocksize=blocksize, sample=False, not_zero=True)
         return [build1(blocksize)] + ([build1(blocksize2)] if blocksize2 is not None else [])
 
     def compute(objs, get):
